@@ -582,7 +582,33 @@ pub fn err_name(e: &jsonb::Error) -> String {
 /// Calls the library function named by `op`. `args[i]` are the bytes (JSONB or JSON text)
 /// of register `i`; `trees[i]` its tree (needed only by the `Value`-taking writers).
 pub fn call(op: &Op, args: &[Vec<u8>], trees: &[MVal], buf: &mut Vec<u8>, offsets: &mut Vec<u64>) -> LibOut {
+    call_with(op, args, trees, buf, offsets, None)
+}
+
+/// The compiled selector a `Selector::select` call would build: callers that apply one path to many documents
+/// (compile once, run per row) keep it and pass it back through `call_with`.
+pub fn make_selector(op: &Op) -> Option<jp::Selector<'static>> {
+    match op {
+        Op::Select { path, api, .. } if !api.accepts_text() => {
+            let mode = match api.mode() {
+                0 => jp::Mode::All,
+                1 => jp::Mode::First,
+                2 => jp::Mode::Array,
+                _ => jp::Mode::Mixed,
+            };
+            Some(jp::Selector::new(path.to_lib(), mode))
+        }
+        _ => None,
+    }
+}
+
+/// Like `call`; a `Selector::select` operation is executed on `reuse` when one is given (the same compiled
+/// selector applied to document after document) instead of on a freshly built one.
+pub fn call_with<'b>(op: &Op, args: &'b [Vec<u8>], trees: &[MVal], buf: &mut Vec<u8>, offsets: &mut Vec<u64>, reuse: Option<&'b jp::Selector<'b>>) -> LibOut {
     let w = |r: Result<(), jsonb::Error>| LibOut::Wrote(r.map_err(|e| err_name(&e)));
+    if let (Some(sel), Op::Select { v, .. }) = (reuse, op) {
+        return w(sel.select(&args[*v], buf, offsets));
+    }
     match op {
         Op::Concat { l, r } => w(jsonb::concat(&args[*l], &args[*r], buf)),
         Op::DeleteByName { v, name } => w(jsonb::delete_by_name(&args[*v], name, buf)),
@@ -602,7 +628,10 @@ pub fn call(op: &Op, args: &[Vec<u8>], trees: &[MVal], buf: &mut Vec<u8>, offset
             w(jsonb::object_pick(&args[*v], &ks, buf))
         }
         Op::StripNulls { v } => w(jsonb::strip_nulls(&args[*v], buf)),
+        // an odd number of items goes through an iterator whose size_hint promises nothing (lower bound 0)
+        Op::BuildArray { items } if items.len() % 2 == 1 => w(jsonb::build_array(items.iter().filter(|_| true).map(|i| args[*i].as_slice()), buf)),
         Op::BuildArray { items } => w(jsonb::build_array(items.iter().map(|i| args[*i].as_slice()), buf)),
+        Op::BuildObject { items } if items.len() % 2 == 1 => w(jsonb::build_object(items.iter().filter(|_| true).map(|(k, i)| (k.as_str(), args[*i].as_slice())), buf)),
         Op::BuildObject { items } => w(jsonb::build_object(items.iter().map(|(k, i)| (k.as_str(), args[*i].as_slice())), buf)),
         Op::ArrayDistinct { v } => w(jsonb::array_distinct(&args[*v], buf)),
         Op::ArrayIntersection { a, b } => w(jsonb::array_intersection(&args[*a], &args[*b], buf)),
